@@ -223,7 +223,7 @@ def control_spec(initial, online):
           "initial_host_offline": (["OFFLINE"], "HOST_OFFLINE"), "switch_online": (["EQUIPMENT_OFFLINE"], "ATTEMPT_ONLINE"),
           "attempt_online_fail_equipment_offline": (["ATTEMPT_ONLINE"], "EQUIPMENT_OFFLINE"),
           "attempt_online_fail_host_offline": (["ATTEMPT_ONLINE"], "HOST_OFFLINE"),
-          "attempt_online_success": (["ATTEMPT_ONLINE"], "ONLINE"), "switch_offline": (on, "EQUIPMENT_OFFLINE"),
+          "attempt_online_success": (["ATTEMPT_ONLINE"], "ONLINE"), "switch_offline": (on + ["HOST_OFFLINE"], "EQUIPMENT_OFFLINE"),
           "initial_online": (["CONTROL"], "ONLINE"), "initial_online_local": (["ONLINE"], "ONLINE_LOCAL"),
           "initial_online_remote": (["ONLINE"], "ONLINE_REMOTE"), "switch_online_local": (["ONLINE_REMOTE"], "ONLINE_LOCAL"),
           "switch_online_remote": (["ONLINE_LOCAL"], "ONLINE_REMOTE"), "remote_offline": (on, "HOST_OFFLINE"),
